@@ -215,10 +215,46 @@ def run(ck):
     ck.ob("R3", "vm_load_pe:section-bytes", ok, pm.where(fn),
           "a section must be mapped at rva2virt(section.addr) with bytes(section.data) padded by zero bytes up to section.size")
     fn = em.func("vm_load_elf")
-    txt = [norm(n) for n in walk_body(fn) if isinstance(n, ast.Assign)]
-    ok = "data_o = elf._content[p.ph.offset:p.ph.offset + p.ph.filesz]" in txt and "addr_o = p.ph.vaddr + base_addr" in txt and \
-        "all_data[addr_o] = data_o" in txt
+    # per loadable segment (the loop over the program headers), with temporaries expanded: the bytes file[offset : offset + filesz] are
+    # recorded at vaddr + base, and the page span reserved for the segment runs up to vaddr + base + max(memsz, filesz) rounded up to a
+    # page - the virtual size, not the file size: the tail of a segment whose memsz exceeds filesz (.bss) is mapped and zero
+    from sa.astutil import straightline_env, clone
+    segl = [n for n in walk_body(fn) if isinstance(n, ast.For) and "phlist" in norm(n.iter)]
+    ok = span_ok = False
+    span_txt = "?"
+    if segl:
+        P = norm(segl[0].target)
+        envs = straightline_env([st for st in segl[0].body if not isinstance(st, ast.If)])
+
+        def X(e):
+            class _T(ast.NodeTransformer):
+                def visit_Name(self, nm):
+                    if isinstance(nm.ctx, ast.Load) and nm.id in envs:
+                        return clone(envs[nm.id])
+                    return nm
+            return _T().visit(clone(e))
+        for st in segl[0].body:
+            if isinstance(st, ast.Assign) and isinstance(st.targets[0], ast.Subscript) and norm(st.targets[0].value) == "all_data":
+                k_, v_ = norm(X(st.targets[0].slice)), norm(X(st.value))
+                ok = k_.replace(" ", "") in (("%s.ph.vaddr+base_addr" % P), ("base_addr+%s.ph.vaddr" % P)) and \
+                    v_.replace(" ", "") == ("elf._content[%s.ph.offset:%s.ph.offset+%s.ph.filesz]" % (P, P, P))
+            tup = None
+            if isinstance(st, ast.AugAssign) and norm(st.target) == "i" and isinstance(st.value, ast.List) and st.value.elts and isinstance(st.value.elts[0], ast.Tuple):
+                tup = st.value.elts[0]
+            if isinstance(st, ast.Expr) and isinstance(st.value, ast.Call) and isinstance(st.value.func, ast.Attribute) and st.value.func.attr in ("append", "add") \
+                    and st.value.args and isinstance(st.value.args[0], ast.Tuple):
+                tup = st.value.args[0]
+            if tup is not None and len(tup.elts) == 2:
+                hi = norm(X(tup.elts[1])).replace(" ", "")
+                span_txt = hi
+                covers_virtual = ("max(%s.ph.memsz,%s.ph.filesz)" % (P, P)) in hi or ("max(%s.ph.filesz,%s.ph.memsz)" % (P, P)) in hi or \
+                    (("%s.ph.memsz" % P) in hi and ("%s.ph.filesz" % P) not in hi and "len(" not in hi)
+                rounded = "+4095" in hi and ("&~4095" in hi or "&-4096" in hi)
+                span_ok = covers_virtual and rounded
     ck.ob("R3", "vm_load_elf:segment-bytes", ok, em.where(fn), "segment bytes must be file[offset:offset+filesz] stored at vaddr + base_addr")
+    ck.ob("R3", "vm_load_elf:segment-span", span_ok, em.where(fn),
+          "the pages reserved for a segment end at `%s`: they must reach vaddr + base + max(memsz, filesz), rounded up to a page (the part "
+          "of the virtual size beyond the file size is zero-filled memory the program uses)" % span_txt[:120])
     zero = any(isinstance(c, ast.Call) and dotted(c.func) == "vm.add_memory_page" and len(c.args) > 2 and norm(c.args[2]).startswith("b'\\x00' *")
                for c in walk_body(fn))
     wr = any(isinstance(n, ast.For) and "all_data" in norm(n.iter) and any(isinstance(c, ast.Call) and dotted(c.func) == "vm.set_mem"
